@@ -44,6 +44,7 @@ def root(v, n):
 # ------------------------------------------------------------------ invariant clauses
 def FOREST(v, K):
     return [
+        ("C03.has_time", forall([a_], IMP(v.N(a_), is_VInt(v.A(a_, K.tk))))),
         ("C03.in<=1", forall([a_], v.idg(a_) <= 1)),
         ("C03.out<=2", forall([a_], v.od(a_) <= 2)),
         ("C03.forward", forall([a_, b_], IMP(v.E(a_, b_), tm(v, K, a_) < tm(v, K, b_)))),
